@@ -19,10 +19,11 @@ type effectSet struct {
 	all        bool              // may write anything (dynamic call, unsupported construct)
 	globals    map[string]bool   // package-level variables written (subset of comps, "G pkg.name")
 	unknownExt map[string]bool
+	serial     map[string]string // package-level variables written only inside a section of a package-level mutex: component -> mutex ("?" = under different mutexes)
 }
 
 func newEffectSet() *effectSet {
-	return &effectSet{comps: map[string]string{}, globals: map[string]bool{}, unknownExt: map[string]bool{}}
+	return &effectSet{comps: map[string]string{}, globals: map[string]bool{}, unknownExt: map[string]bool{}, serial: map[string]string{}}
 }
 
 func (e *effectSet) add(o *effectSet) bool {
@@ -49,7 +50,45 @@ func (e *effectSet) add(o *effectSet) bool {
 		e.all = true
 		ch = true
 	}
+	for k, mu := range o.serial {
+		if old, ok := e.serial[k]; !ok {
+			e.serial[k] = mu
+			ch = true
+		} else if old != mu && old != "?" {
+			e.serial[k] = "?"
+			ch = true
+		}
+	}
 	return ch
+}
+
+// addUnder adds the effects of a callee invoked while the package-level mutex mu is held: its
+// writes of package-level variables become writes serialised by mu (see locks.go).
+func (e *effectSet) addUnder(o *effectSet, mu string) bool {
+	if mu == "" {
+		return e.add(o)
+	}
+	c := newEffectSet()
+	c.all = o.all
+	for k, v := range o.comps {
+		if !o.globals[k] {
+			c.comps[k] = v
+		}
+	}
+	for k := range o.unknownExt {
+		c.unknownExt[k] = true
+	}
+	for k, v := range o.serial {
+		c.serial[k] = v
+	}
+	for k := range o.globals {
+		if old, ok := c.serial[k]; ok && old != mu {
+			c.serial[k] = "?"
+		} else {
+			c.serial[k] = mu
+		}
+	}
+	return e.add(c)
 }
 
 func (en *Engine) effects(fn *ssa.Function) *effectSet {
@@ -183,6 +222,7 @@ func (en *Engine) effectsStep(f *ssa.Function) bool {
 		}
 	}
 	gder := en.globalDerived(f)
+	held := heldMap(f)
 	// a value derived from a package-level variable that is returned hands the shared object to
 	// the caller (summary used by globalDerived of the callers)
 	for _, b := range f.Blocks {
@@ -225,6 +265,14 @@ func (en *Engine) effectsStep(f *ssa.Function) bool {
 				// field of a package-level struct)
 				if g, ok := baseOf(i.Addr).(*ssa.Global); ok {
 					comp := q("G " + g.Pkg.Pkg.Name() + "." + g.Name())
+					if mu := held[i]; mu != "" {
+						if old, ok := n.serial[comp]; ok && old != mu {
+							n.serial[comp] = "?"
+						} else {
+							n.serial[comp] = mu
+						}
+						continue
+					}
 					addc(comp, en.u.sortOf(g.Type().(*types.Pointer).Elem()), "")
 					if en.effSites != nil {
 						en.effSites[f] = append(en.effSites[f], i)
@@ -256,6 +304,9 @@ func (en *Engine) effectsStep(f *ssa.Function) bool {
 				n.all = true
 			case ssa.CallInstruction:
 				c := i.Common()
+				if k, _ := mutexOf(ins); k != "" {
+					continue // Lock/Unlock of a sync mutex: synchronisation, not a data write
+				}
 				// a value read from a package-level variable handed to a callee that writes
 				// pre-existing memory: the callee may write the shared object through it
 				writes := func(es *effectSet) bool { return es != nil && (es.all || len(es.comps) > 0) }
@@ -281,7 +332,7 @@ func (en *Engine) effectsStep(f *ssa.Function) bool {
 				if c.IsInvoke() {
 					for _, impl := range en.implementations(c) {
 						if en.effMemo[impl] != nil {
-							n.add(en.effMemo[impl])
+							n.addUnder(en.effMemo[impl], held[ins])
 						}
 					}
 					continue
@@ -326,7 +377,7 @@ func (en *Engine) effectsStep(f *ssa.Function) bool {
 					}
 				case *ssa.Function:
 					if en.effMemo[callee] != nil {
-						n.add(en.effMemo[callee])
+						n.addUnder(en.effMemo[callee], held[ins])
 					}
 				default:
 					n.all = true // call of a function value
@@ -558,6 +609,26 @@ func (en *Engine) checkEffects(fn *ssa.Function, ct *FuncContract, prop string) 
 				continue
 			}
 			gs := sortedKeys(eff.globals)
+			var sk []string
+			for g := range eff.serial {
+				sk = append(sk, g)
+			}
+			sort.Strings(sk)
+			for _, g := range sk {
+				if eff.globals[g] {
+					continue // also written outside any section: reported below
+				}
+				mu := eff.serial[g]
+				why := "it is written under different mutexes"
+				if mu != "?" {
+					why = en.lockDiscipline(g, mu)
+				}
+				if why == "" {
+					out = append(out, effResult{fn: key, name: key + "/effects.noglobals.serialised:" + g, what: "package-level variable " + g + " is written below " + key + " only while the package-level mutex " + mu + " is held, and every access to it in the repository is inside such a section (assumed: sync.Mutex gives mutual exclusion and happens-before; no callee releases its caller's lock; no call through a function value reaches the accessors)", ok: true, scanned: scanned, sites: sites})
+				} else {
+					out = append(out, effResult{fn: key, name: key + "/effects.noglobals:" + g, what: "package-level variable " + g + " is written below " + key + " and not serialised: " + why, ok: false})
+				}
+			}
 			if len(gs) == 0 {
 				out = append(out, effResult{fn: key, name: key + "/effects.noglobals", what: "no function reachable from " + key + " writes a package-level variable", ok: true, scanned: scanned, sites: sites})
 			}
